@@ -452,6 +452,10 @@ def mapping_to_items(mapping: LineMapping, is_linetable: bool) -> CollapsedItems
     last_bytecode_offset = 0
 
     for bytecode_offset, line_number in mapping.offset_to_line.items():
+        # The lnotab cannot represent an instruction without a line number,
+        # so it stays on the line of the last instruction
+        if line_number is None:
+            line_number = last_line_number
         additional_line_offsets = mapping.offset_to_additional_line_offsets.get(
             bytecode_offset, []
         )
